@@ -1,4 +1,6 @@
-CONSTANTS Projects <- ThoroughProjects
+CONSTANTS
+  Projects <- NoUse
+  Tier = "thorough"
 SPECIFICATION MCSpec
 INVARIANTS ExactlyNeeds NeverTooMuch EmitCases
 PROPERTY Termination
